@@ -4,6 +4,7 @@
  *   case <name>
  *   xmlbackend <export 0|1> [<import 0|1>]  HWLOC_LIBXML_EXPORT / HWLOC_LIBXML_IMPORT for the diff XML round trip
  *                                    (hwloc caches the choice on first use: every case is its own process)
+ *   refname <string|->               refname given to the diff export (default: a file name with XML specials)
  *   xmlhand <n>                      followed by n "D ..." lines: XML round trip (buffer and file) of that list
  *                                    strings may be written @<len>[:e] = generated string of that length (e: with &<>"')
  *   topo synthetic <description> | topo xml <path>
@@ -458,10 +459,13 @@ static hwloc_topology_t A, B;
 
 static void need_B(void) { if (!B && A) hwloc_topology_dup(&B, A); }
 
+/* refname given by the case ("refname -" = NULL); default: a file name with XML-special characters */
+static char *g_refname; static int g_refname_set;
+
 /* export/load of a list as XML: buffer and file variants, with a refname */
 static void xml_roundtrip(hwloc_topology_diff_t diff, int with_apply)
 {
-  static const char *refname = "ref<&\"1>.xml";
+  const char *refname = g_refname_set ? g_refname : "ref<&\"1>.xml";
   hwloc_topology_diff_t xd = NULL; char *buf = NULL, *ref = NULL; int len = 0, r;
   char path[] = "/tmp/hwv-diff-XXXXXX"; int fd;
   r = hwloc_topology_diff_export_xmlbuffer(diff, refname, &buf, &len);
@@ -472,7 +476,7 @@ static void xml_roundtrip(hwloc_topology_diff_t diff, int with_apply)
     printf("xml export=-1 fexport=%d\n", r); return;
   }
   /* strnlen: a cut document may not be terminated inside the reported length */
-  printf("xml export=0 len=%d strlen=%lu", len, (unsigned long)strnlen(buf, (size_t)(len > 0 ? len : 0)) + 1);
+  printf("xml export=0 refin="); hx(refname); printf(" len=%d strlen=%lu", len, (unsigned long)strnlen(buf, (size_t)(len > 0 ? len : 0)) + 1);
   r = hwloc_topology_diff_load_xmlbuffer(buf, len, &xd, &ref);
   printf(" load=%d same=%d n=%u ref=", r, r < 0 ? 0 : diff_same(diff, xd), r < 0 ? 0 : diff_len(xd)); hx(r < 0 ? NULL : ref);
   if (r == 0 && with_apply) {
@@ -622,6 +626,7 @@ static int run_case(FILE *in)
       char e[8] = "1", im[8] = ""; sscanf(line + 11, "%7s %7s", e, im);
       setenv("HWLOC_LIBXML_EXPORT", e, 1); setenv("HWLOC_LIBXML_IMPORT", im[0] ? im : e, 1);
     }
+    else if (!strncmp(line, "refname ", 8)) { free(g_refname); g_refname = unhx(line + 8); g_refname_set = 1; }
     else if (!strcmp(line, "xmlverbose")) setenv("HWLOC_XML_VERBOSE", "1", 1);
     else if (!strncmp(line, "xmlhand ", 8)) {
       unsigned cnt = 0, k; hwloc_topology_diff_t first = NULL, last = NULL, e2;
@@ -683,6 +688,7 @@ static int run_case(FILE *in)
     fflush(stdout);
   }
   undo_cuts();
+  free(g_refname);
   if (B) hwloc_topology_destroy(B);
   if (A) hwloc_topology_destroy(A);
   return 0;
